@@ -357,3 +357,304 @@ fn c04_fold_percentile_all_null() {
 #[cfg(test)]
 #[path = "/verif/.cache/playback/aggregate_execution.rs"]
 mod playback_gen;
+
+// ------------------------------------------------------------------------------------------------
+// MIN / MAX: the real fold kernel `fold_min_max` (src/execution/aggregate_execution.rs) under the
+// driver protocol of update_aggregate's Min/Max arm: the group's cell is created lazily from the
+// first value that arrives (a clone of it, or NULL when it is NULL), a non-NULL value is folded in
+// through fold_min_max, a NULL value leaves an existing cell alone.
+fn minmax3(is_min: bool, v0: &Value, v1: &Value, v2: &Value) -> Option<MD<Value>> {
+    let mut cell: Option<MD<Value>> = None;
+    macro_rules! step {
+        ($v:expr) => {
+            if $v.is_not_null() {
+                if cell.is_none() { cell = Some(ManuallyDrop::new(stub_value_clone_scalar($v))); }
+                if let Some(c) = cell.as_mut() { super::fold_min_max(&mut **c, $v, is_min); }
+            } else if cell.is_none() {
+                cell = Some(ManuallyDrop::new(Value::Null));
+            }
+        };
+    }
+    step!(v0); step!(v1); step!(v2);
+    cell
+}
+
+fn same_opt_cell(x: &Option<MD<Value>>, y: &Option<MD<Value>>) -> bool {
+    match (x, y) { (None, None) => true, (Some(a), Some(b)) => **a == **b, _ => false }
+}
+
+/// `le(a, b)`: a <= b in the documented order of the type, stated on the payloads (not through Value::cmp).
+/// The cell must be a value v of the group with v <= every non-NULL value (MIN) / v >= (MAX), NULL iff the
+/// group has no non-NULL value, and the same whatever the arrival order (C15).
+macro_rules! minmax_harness {
+    ($name:ident, $is_min:expr, $mk:expr, $le:expr, $n0:expr, $n1:expr, $n2:expr) => {
+        #[kani::proof]
+        #[kani::unwind(2)]
+        #[kani::stub(alloc::fmt::format, crate::verif_kani::common::stub_format)]
+        #[kani::stub(<crate::model::Value as std::clone::Clone>::clone, crate::verif_kani::common::stub_value_clone_scalar)]
+        #[kani::stub(chrono::Local::now, crate::verif_kani::common::stub_local_now)]
+        #[kani::stub(<chrono::Local as chrono::TimeZone>::offset_from_local_datetime, crate::verif_kani::common::stub_offset_from_local_datetime)]
+        #[kani::stub(<chrono::Local as chrono::TimeZone>::offset_from_utc_datetime, crate::verif_kani::common::stub_offset_from_utc_datetime)]
+        fn $name() {
+            let (n0, n1, n2): (bool, bool, bool) = ($n0, $n1, $n2);
+            let mk = $mk;
+            let le = $le;
+            let a: MD<Value> = if n0 { ManuallyDrop::new(Value::Null) } else { ManuallyDrop::new(mk()) };
+            let b: MD<Value> = if n1 { ManuallyDrop::new(Value::Null) } else { ManuallyDrop::new(mk()) };
+            let c: MD<Value> = if n2 { ManuallyDrop::new(Value::Null) } else { ManuallyDrop::new(mk()) };
+            let is_min: bool = $is_min;
+            let base = minmax3(is_min, &a, &b, &c);
+            match &base {
+                None => { assert!(false, "C04 every group has a cell for MIN / MAX"); }
+                Some(r) => {
+                    if n0 && n1 && n2 {
+                        assert!(r.is_null(), "C04 aggregate over no non-NULL value is NULL");
+                    } else {
+                        assert!(!r.is_null(), "C04 MIN / MAX over a group with a non-NULL value is not NULL");
+                        let bound = |v: &Value| v.is_null() || if is_min { le(&**r, v) } else { le(v, &**r) };
+                        assert!(bound(&a) && bound(&b) && bound(&c), "C04 MIN / MAX is the least / greatest non-NULL value of the group");
+                        let is_one = |v: &Value| !v.is_null() && le(&**r, v) && le(v, &**r);
+                        assert!(is_one(&a) || is_one(&b) || is_one(&c), "C04 MIN / MAX is a value of the group");
+                    }
+                }
+            }
+            let reversed = minmax3(is_min, &c, &b, &a);
+            assert!(same_opt_cell(&base, &reversed), "C15 aggregate is the same for every order of the group's rows");
+            let rotated = minmax3(is_min, &b, &c, &a);
+            assert!(same_opt_cell(&base, &rotated), "C15 aggregate is the same for every order of the group's rows");
+            kani::cover!(true, "fold: end reachable");
+        }
+    };
+}
+
+fn le_int(a: &Value, b: &Value) -> bool { match (a, b) { (Value::Int(x), Value::Int(y)) => x <= y, _ => false } }
+// REAL: numeric order with -0.0 = 0.0, NaN above every number (the total order of C16)
+fn le_float(a: &Value, b: &Value) -> bool { match (a, b) { (Value::Float(x), Value::Float(y)) => y.0.is_nan() || x.0 <= y.0, _ => false } }
+fn le_bool(a: &Value, b: &Value) -> bool { match (a, b) { (Value::Bool(x), Value::Bool(y)) => !*x || *y, _ => false } }
+fn le_timestamp(a: &Value, b: &Value) -> bool {
+    match (a, b) {
+        // the instant order of chrono's DateTime (its laws are decided under C16); converting back to seconds is a chain of
+        // 64-bit multiplications that the solver does not get through (no verdict in 600 s)
+        (Value::Timestamp(x), Value::Timestamp(y)) => x <= y,
+        _ => false
+    }
+}
+fn le_interval(a: &Value, b: &Value) -> bool {
+    match (a, b) { (Value::Interval(x), Value::Interval(y)) => (x.num_seconds(), x.subsec_nanos()) <= (y.num_seconds(), y.subsec_nanos()), _ => false }
+}
+// TEXT of 0..1 ASCII bytes: code point order, the empty string first
+fn le_text1(a: &Value, b: &Value) -> bool {
+    match (a, b) {
+        (Value::String(x), Value::String(y)) => {
+            let (x, y) = (x.as_bytes(), y.as_bytes());
+            if x.len() == 0 { true } else if y.len() == 0 { false } else { x[0] <= y[0] }
+        }
+        _ => false
+    }
+}
+fn mk_int() -> Value { Value::Int(kani::any()) }
+fn mk_float() -> Value { Value::Float(Float(kani::any())) }
+fn mk_bool() -> Value { Value::Bool(kani::any()) }
+fn mk_timestamp() -> Value { Value::Timestamp(any_timestamp()) }
+fn mk_interval() -> Value { Value::Interval(any_interval()) }
+fn mk_text1() -> Value { Value::String(any_ascii_string(1)) }
+
+macro_rules! minmax_patterns {
+    ($min_vvv:ident, $min_nvv:ident, $min_vnv:ident, $min_nnn:ident, $max_vvv:ident, $max_nvv:ident, $max_vnv:ident, $max_nnn:ident, $mk:expr, $le:expr) => {
+        minmax_harness!($min_vvv, true, $mk, $le, false, false, false);
+        minmax_harness!($min_nvv, true, $mk, $le, true, false, false);
+        minmax_harness!($min_vnv, true, $mk, $le, false, true, false);
+        minmax_harness!($min_nnn, true, $mk, $le, true, true, true);
+        minmax_harness!($max_vvv, false, $mk, $le, false, false, false);
+        minmax_harness!($max_nvv, false, $mk, $le, true, false, false);
+        minmax_harness!($max_vnv, false, $mk, $le, false, true, false);
+        minmax_harness!($max_nnn, false, $mk, $le, true, true, true);
+    };
+}
+minmax_patterns!(c04_minmax_min_int_vvv, c04_minmax_min_int_nvv, c04_minmax_min_int_vnv, c04_minmax_min_int_nnn, c04_minmax_max_int_vvv, c04_minmax_max_int_nvv, c04_minmax_max_int_vnv, c04_minmax_max_int_nnn, mk_int, le_int);
+minmax_patterns!(c04_minmax_min_float_vvv, c04_minmax_min_float_nvv, c04_minmax_min_float_vnv, c04_minmax_min_float_nnn, c04_minmax_max_float_vvv, c04_minmax_max_float_nvv, c04_minmax_max_float_vnv, c04_minmax_max_float_nnn, mk_float, le_float);
+minmax_patterns!(c04_minmax_min_bool_vvv, c04_minmax_min_bool_nvv, c04_minmax_min_bool_vnv, c04_minmax_min_bool_nnn, c04_minmax_max_bool_vvv, c04_minmax_max_bool_nvv, c04_minmax_max_bool_vnv, c04_minmax_max_bool_nnn, mk_bool, le_bool);
+minmax_patterns!(c04_minmax_min_timestamp_vvv, c04_minmax_min_timestamp_nvv, c04_minmax_min_timestamp_vnv, c04_minmax_min_timestamp_nnn, c04_minmax_max_timestamp_vvv, c04_minmax_max_timestamp_nvv, c04_minmax_max_timestamp_vnv, c04_minmax_max_timestamp_nnn, mk_timestamp, le_timestamp);
+minmax_patterns!(c04_minmax_min_interval_vvv, c04_minmax_min_interval_nvv, c04_minmax_min_interval_vnv, c04_minmax_min_interval_nnn, c04_minmax_max_interval_vvv, c04_minmax_max_interval_nvv, c04_minmax_max_interval_vnv, c04_minmax_max_interval_nnn, mk_interval, le_interval);
+minmax_patterns!(c04_minmax_min_text1_vvv, c04_minmax_min_text1_nvv, c04_minmax_min_text1_vnv, c04_minmax_min_text1_nnn, c04_minmax_max_text1_vvv, c04_minmax_max_text1_nvv, c04_minmax_max_text1_vnv, c04_minmax_max_text1_nnn, mk_text1, le_text1);
+
+// ------------------------------------------------------------------------------------------------
+// The REAL driver: AggregateExecutionEngine::update_aggregate (shared SUM / AVG / ... / BOOL arm and the
+// MIN / MAX arm) runs as written - evaluate(argument), lazily created aggregator, update(), the is_null()
+// guard for NULL arguments, the write into the group's visible cell.  Only the group *table* is played by
+// the harness: get_group_value / get_group_aggregator are stubbed to hand out the one slot of the one
+// group (BTreeMap<GroupKey, HashMap<..>> does not get through symbolic execution, probe 14).  The
+// update_value() step of execute_result is applied as in fold3.
+use super::{AggregateExecutionEngine, GroupKey};
+use crate::execution::{ColumnProvider, ColumnScope, ExecutionError, ExecutionResult};
+use crate::execution::expression_execution::ExpressionExecutionEngine;
+use crate::model::AggregateStatement;
+
+struct OneValue { v: MD<Value>, keys: MD<Vec<String>> }
+impl ColumnProvider for OneValue {
+    fn get(&self, _scope: ColumnScope, _name: &str) -> Option<&Value> { Some(&*self.v) }
+    fn add_key(&mut self, _key: &str) {}
+    fn keys(&self) -> &Vec<String> { &*self.keys }
+}
+
+static mut SLOT_VALUE: Option<MD<Value>> = None;
+static mut SLOT_AGG: Option<MD<GroupAggregator>> = None;
+
+fn stub_get_group_value<F: Fn() -> ExecutionResult<Value>>(_engine: &mut AggregateExecutionEngine, group_key: GroupKey, _aggregate_index: usize, default_value_fn: F) -> ExecutionResult<&mut Value> {
+    std::mem::forget(group_key);
+    let slot = unsafe { &mut *std::ptr::addr_of_mut!(SLOT_VALUE) };
+    if slot.is_none() { *slot = Some(ManuallyDrop::new(default_value_fn()?)); }
+    match slot.as_mut() { Some(v) => Ok(&mut **v), None => Err(ExecutionError::InternalError) }
+}
+
+fn stub_get_group_aggregator<F: Fn() -> GroupAggregator>(_engine: &mut AggregateExecutionEngine, group_key: GroupKey, _aggregate_index: usize, default_value_fn: F) -> ExecutionResult<&mut GroupAggregator> {
+    std::mem::forget(group_key);
+    let slot = unsafe { &mut *std::ptr::addr_of_mut!(SLOT_AGG) };
+    if slot.is_none() { *slot = Some(ManuallyDrop::new(default_value_fn())); }
+    match slot.as_mut() { Some(v) => Ok(&mut **v), None => Err(ExecutionError::InternalError) }
+}
+
+/// The group's visible cell after the three rows went through the real update_aggregate in this order.
+fn drive3(agg: &Aggregate, v0: &Value, v1: &Value, v2: &Value) -> Result<Option<MD<Value>>, ()> {
+    unsafe { *std::ptr::addr_of_mut!(SLOT_VALUE) = None; *std::ptr::addr_of_mut!(SLOT_AGG) = None; }
+    let mut engine = ManuallyDrop::new(AggregateExecutionEngine::new());
+    let statement = ManuallyDrop::new(AggregateStatement::default());
+    let key = ManuallyDrop::new(GroupKey(Vec::new()));
+    macro_rules! step {
+        ($v:expr) => {
+            let row = ManuallyDrop::new(OneValue { v: ManuallyDrop::new(stub_value_clone_scalar($v)), keys: ManuallyDrop::new(Vec::new()) });
+            let expressions = ManuallyDrop::new(ExpressionExecutionEngine::new(&*row));
+            let r = ManuallyDrop::new(engine.update_aggregate(&statement, &*row, &*expressions, &key, 0, agg));
+            if r.is_err() { return Err(()); }
+        };
+    }
+    step!(v0); step!(v1); step!(v2);
+    let aggregator = unsafe { &mut *std::ptr::addr_of_mut!(SLOT_AGG) };
+    let cell = unsafe { &mut *std::ptr::addr_of_mut!(SLOT_VALUE) };
+    if let Some(aggregator) = aggregator.as_mut() {
+        let r = ManuallyDrop::new(aggregator.update_value());
+        match &*r {
+            Ok(Some(value)) => { *cell = Some(ManuallyDrop::new(stub_value_clone_scalar(value))); }
+            Ok(None) => {}
+            Err(_) => { return Err(()); }
+        }
+    }
+    Ok(match cell.as_ref() { Some(v) => Some(ManuallyDrop::new(stub_value_clone_scalar(&**v))), None => None })
+}
+
+fn column_arg() -> ExpressionTree { ExpressionTree::ScopedColumnAccess(ColumnScope::Table, String::new()) }
+
+/// Two non-NULL INT rows a, b and one NULL row; $order places the NULL row (0 = last, 1 = first, 2 = in the middle).
+/// One harness per placement (the three placements in one harness - nine driver calls - passed 13 GB without a
+/// verdict): the cell is the aggregate of {a, b} for each placement (C04), hence the same for these orders (C15).
+macro_rules! driver_int_harness {
+    ($name:ident, $agg:expr, $order:expr, $expect:expr) => {
+        #[kani::proof]
+        #[kani::unwind(2)]
+        #[kani::stub(alloc::fmt::format, crate::verif_kani::common::stub_format)]
+        #[kani::stub(<crate::model::Value as std::clone::Clone>::clone, crate::verif_kani::common::stub_value_clone_scalar)]
+        #[kani::stub(<crate::model::Value as std::fmt::Display>::fmt, crate::verif_kani::common::stub_value_display)]
+        #[kani::stub(regex::Regex::new, crate::verif_kani::common::stub_regex_new)]
+        #[kani::stub(chrono::NaiveDateTime::parse_from_str, crate::verif_kani::common::stub_naive_parse_from_str)]
+        #[kani::stub(chrono::Local::now, crate::verif_kani::common::stub_local_now)]
+        #[kani::stub(<chrono::Local as chrono::TimeZone>::offset_from_local_datetime, crate::verif_kani::common::stub_offset_from_local_datetime)]
+        #[kani::stub(<chrono::Local as chrono::TimeZone>::offset_from_utc_datetime, crate::verif_kani::common::stub_offset_from_utc_datetime)]
+        #[kani::stub(AggregateExecutionEngine::get_group_value, stub_get_group_value)]
+        #[kani::stub(AggregateExecutionEngine::get_group_aggregator, stub_get_group_aggregator)]
+        fn $name() {
+            let x0: i64 = kani::any(); let x1: i64 = kani::any();
+            kani::assume(x0 >= -SMALL && x0 <= SMALL && x1 >= -SMALL && x1 <= SMALL);
+            let (a, b, n) = (int_or_null(false, x0), int_or_null(false, x1), int_or_null(true, 0));
+            let agg = ManuallyDrop::new($agg);
+            let expect = $expect;
+            let cell = match $order { 0 => drive3(&agg, &a, &b, &n), 1 => drive3(&agg, &n, &a, &b), _ => drive3(&agg, &a, &n, &b) };
+            assert!(expect(&cell, x0, x1), "C04 aggregate is computed from the group's non-NULL values, wherever the NULL row arrives (C15)");
+            kani::cover!(true, "driver: end reachable");
+        }
+    };
+}
+macro_rules! driver_int_orders {
+    ($nl:ident, $nf:ident, $nm:ident, $agg:expr, $expect:expr) => {
+        driver_int_harness!($nl, $agg, 0, $expect);
+        driver_int_harness!($nf, $agg, 1, $expect);
+        driver_int_harness!($nm, $agg, 2, $expect);
+    };
+}
+driver_int_orders!(c04_driver_sum_int_null_last, c04_driver_sum_int_null_first, c04_driver_sum_int_null_middle, Aggregate::Sum(column_arg()), |c: &Result<Option<MD<Value>>, ()>, x0: i64, x1: i64| cell_int(c) == Some(x0 + x1));
+driver_int_orders!(c04_driver_avg_int_null_last, c04_driver_avg_int_null_first, c04_driver_avg_int_null_middle, Aggregate::Average(column_arg()), |c: &Result<Option<MD<Value>>, ()>, x0: i64, x1: i64| match cell_int(c) { Some(q) => { let d = (x0 + x1) - q * 2; d > -2 && d < 2 } None => false });
+driver_int_orders!(c04_driver_min_int_null_last, c04_driver_min_int_null_first, c04_driver_min_int_null_middle, Aggregate::Min(column_arg()), |c: &Result<Option<MD<Value>>, ()>, x0: i64, x1: i64| cell_int(c) == Some(if x0 < x1 { x0 } else { x1 }));
+driver_int_orders!(c04_driver_max_int_null_last, c04_driver_max_int_null_first, c04_driver_max_int_null_middle, Aggregate::Max(column_arg()), |c: &Result<Option<MD<Value>>, ()>, x0: i64, x1: i64| cell_int(c) == Some(if x0 > x1 { x0 } else { x1 }));
+
+// ------------------------------------------------------------------------------------------------
+// C03 (hosted here so that kani/execution.rs stays byte-identical: c03_subscript_len1 in that module is sensitive
+// to what it is compiled with, DESIGN.md 6.2): WHERE comparison of an INT with a REAL against the *exact* order
+// of any i64 and any non-NaN f64.  First assertion: the result is the numeric one or the recorded by-variant one
+// (known finding C03-int-vs-real-compare) - anything else is a new violation; second assertion: the property.
+struct TwoValues { a: MD<Value>, b: MD<Value>, keys: MD<Vec<String>> }
+impl ColumnProvider for TwoValues {
+    fn get(&self, scope: ColumnScope, _name: &str) -> Option<&Value> {
+        match scope { ColumnScope::Table => Some(&*self.a), _ => Some(&*self.b) }
+    }
+    fn add_key(&mut self, _key: &str) {}
+    fn keys(&self) -> &Vec<String> { &*self.keys }
+}
+
+/// Exact order of an i64 against an f64 (None for NaN): no rounding of the integer.
+fn exact_cmp_i64_f64(i: i64, f: f64) -> Option<std::cmp::Ordering> {
+    use std::cmp::Ordering::*;
+    if f.is_nan() { return None; }
+    if f >= 9223372036854775808.0 { return Some(Less); }
+    if f < -9223372036854775808.0 { return Some(Greater); }
+    let t = f as i64;       // truncation towards zero, exact in this range
+    if i < t { Some(Less) } else if i > t { Some(Greater) } else {
+        let tf = t as f64;  // exact: t is the integral part of an f64
+        if f > tf { Some(Less) } else if f < tf { Some(Greater) } else { Some(Equal) }
+    }
+}
+
+fn holds(op: u8, ord: std::cmp::Ordering) -> bool {
+    use std::cmp::Ordering::*;
+    match op { 0 => ord == Equal, 1 => ord == Greater, _ => ord == Less }
+}
+
+macro_rules! exact_mixed_compare_harness {
+    ($name:ident, $int_left:expr, $op:expr) => {
+        #[kani::proof]
+        #[kani::unwind(2)]
+        #[kani::stub(alloc::fmt::format, crate::verif_kani::common::stub_format)]
+        #[kani::stub(<crate::model::Value as std::clone::Clone>::clone, crate::verif_kani::common::stub_value_clone_scalar)]
+        #[kani::stub(<crate::model::Value as std::fmt::Display>::fmt, crate::verif_kani::common::stub_value_display)]
+        #[kani::stub(regex::Regex::new, crate::verif_kani::common::stub_regex_new)]
+        #[kani::stub(chrono::NaiveDateTime::parse_from_str, crate::verif_kani::common::stub_naive_parse_from_str)]
+        #[kani::stub(chrono::Local::now, crate::verif_kani::common::stub_local_now)]
+        #[kani::stub(<chrono::Local as chrono::TimeZone>::offset_from_local_datetime, crate::verif_kani::common::stub_offset_from_local_datetime)]
+        #[kani::stub(<chrono::Local as chrono::TimeZone>::offset_from_utc_datetime, crate::verif_kani::common::stub_offset_from_utc_datetime)]
+        fn $name() {
+            let i: i64 = kani::any();
+            let f: f64 = kani::any();
+            let int_left: bool = $int_left;
+            let (va, vb) = if int_left { (Value::Int(i), Value::Float(Float(f))) } else { (Value::Float(Float(f)), Value::Int(i)) };
+            let row = ManuallyDrop::new(TwoValues { a: ManuallyDrop::new(va), b: ManuallyDrop::new(vb), keys: ManuallyDrop::new(Vec::new()) });
+            let mut left = ManuallyDrop::new(ExpressionTree::ScopedColumnAccess(ColumnScope::Table, String::new()));
+            let mut right = ManuallyDrop::new(ExpressionTree::ScopedColumnAccess(ColumnScope::AggregationValue, String::new()));
+            let operator = match $op { 0 => crate::model::CompareOperator::Equal, 1 => crate::model::CompareOperator::GreaterThan, _ => crate::model::CompareOperator::LessThan };
+            let e = ManuallyDrop::new(ExpressionTree::Compare {
+                operator,
+                left: unsafe { Box::from_raw(&mut *left as *mut ExpressionTree) },
+                right: unsafe { Box::from_raw(&mut *right as *mut ExpressionTree) },
+            });
+            let r = ManuallyDrop::new(ExpressionExecutionEngine::new(&*row).evaluate(&e));
+            let got = if let Ok(Value::Bool(x)) = &*r { Some(*x) } else { None };
+            if let Some(ord) = exact_cmp_i64_f64(i, f) {
+                let ord = if int_left { ord } else { ord.reverse() };
+                let by_variant = if int_left { std::cmp::Ordering::Less } else { std::cmp::Ordering::Greater };
+                assert!(got == Some(holds($op, ord)) || got == Some(holds($op, by_variant)), "C03 INT vs REAL comparison is the exact numeric one or the recorded by-variant one");
+                assert!(got == Some(holds($op, ord)), "C03 INT vs REAL compares numerically (exact, full range)");
+            }
+            kani::cover!(true, "compare: end reachable");
+        }
+    };
+}
+exact_mixed_compare_harness!(c03_cmpx_int_float_eq, true, 0);
+exact_mixed_compare_harness!(c03_cmpx_float_int_gt, false, 1);
+exact_mixed_compare_harness!(c03_cmpx_int_float_lt, true, 2);
